@@ -253,6 +253,8 @@ func profileWeights(prop string, c Config, r *prng.R) weights {
 	case "C52":
 		w.compactStale, w.compactSel, w.restart, w.rollback = 3, 3, 4, 4
 		w.setOOO = 0 // the window decides which sample kinds C52 runs may append (see TagGaugeOOOMixed)
+	case "C24":
+		w.compact, w.compactHead, w.compactOOO, w.restart, w.burst, w.del = 12, 3, 4, 6, 24, 3
 	case "C53", "C23":
 		w.restart = 6
 	case "C11", "C12":
